@@ -142,7 +142,14 @@ static void run(vh::Rng & r, int type, vh::Out & out)
     }
   }
   // a non-planar cloud: range invariants only
-  PointSet<PT> cloud; for (int i = 0; i < n; ++i) {IV p; for (size_t a = 0; a < DIM; ++a) {p.push_back(r.range(-50, 50) + (a == 0 ? 200 : 0));} cloud.push_back(mk<PT, DIM>(p));}
+  // (distinct real-valued points: a neighbourhood of coincident points has no direction of least variance at all - the property's
+  //  quantifier asks for a distinct smallest eigenvalue - and its curvature would be 0/0)
+  PointSet<PT> cloud;
+  for (int i = 0; i < n; ++i) {
+    PT q = mk<PT, DIM>(IV(DIM, 0));
+    for (size_t a = 0; a < DIM; ++a) {q[a] = (S)((double)r.range(-50000, 50000) / 1000.0 + (a == 0 ? 200.0 : 0.0) + 1e-3 * i);}
+    cloud.push_back(q);
+  }
   NormalSet<PT> normals(cloud.size()); std::vector<S> curv(cloud.size());
   NormalAndCurvatureEstimation<PT> est((size_t)k);
   est.compute(cloud, normals, curv);
